@@ -56,6 +56,8 @@ class VProc:
         self.exc: BaseException | None = None
         self.thread = threading.Thread(target=self._body, daemon=True, name=name)
         self.on_exit: list[Callable] = []
+        self.sig_handlers: dict = {}      # signum -> handler registered by this virtual process
+        self.pending_signals: list = []   # signums delivered but not handled yet
 
     def _body(self):
         self.sem.acquire()
@@ -127,18 +129,38 @@ class Sched:
             raise HarnessError("blocking seam called outside a virtual process")
         if p.killed:
             raise VKilled()
-        p.cond, p.deadline, p.timed_out = cond, deadline_ns, False
-        self.main_sem.release()
-        p.sem.acquire()
-        if p.killed:
-            raise VKilled()
-        return not p.timed_out
+        while True:
+            p.cond, p.deadline, p.timed_out = cond, deadline_ns, False
+            self.main_sem.release()
+            p.sem.acquire()
+            if p.killed:
+                raise VKilled()
+            if p.pending_signals:
+                # the handler runs in the interrupted process; the interrupted call then continues (PEP 475)
+                signum = p.pending_signals.pop(0)
+                p.sig_handlers[signum](signum, None)
+                if cond():
+                    return True
+                if getattr(p, "interrupt_check", None) is not None and p.interrupt_check():
+                    return False
+                continue
+            return not p.timed_out
 
     def kill(self, p: VProc):
         if p.dead or not p.started:
             return
         p.killed = True
         p.cond, p.deadline = None, None  # runnable: wakes up and unwinds
+
+    def term(self, p: VProc, signum: int = 15):
+        """SIGTERM: the handler the process registered runs at its next scheduling point; without one the process dies"""
+        if p.dead or not p.started:
+            return
+        if signum in p.sig_handlers:
+            p.pending_signals.append(signum)
+            p.cond, p.deadline = None, None
+        else:
+            self.kill(p)
 
     def alive(self):
         return [p for p in self.procs if p.started and not p.dead]
@@ -263,7 +285,11 @@ class Cluster:
         executor_mod.get_context = lambda kind: MPCtx()
         shm_api.publish_client_port = lambda port: S.current.env.__setitem__("CASCADE_SHM_PORT", str(port))
         shm_api.get_client_port = lambda: int(S.current.env["CASCADE_SHM_PORT"])
-        shm_server.signal = types.SimpleNamespace(signal=lambda *a: None, SIGINT=2, SIGTERM=15)
+        def vsignal(signum, handler):
+            if S.current is not None:
+                S.current.sig_handlers[signum] = handler
+
+        shm_server.signal = types.SimpleNamespace(signal=vsignal, SIGINT=2, SIGTERM=15)
         shm_dataset.get_capacity = lambda: 1 << 30
         shm_dataset.disk = types.SimpleNamespace(Disk=lambda: types.SimpleNamespace(atexit=lambda: None))
         ns = self.ns
@@ -311,8 +337,19 @@ class Cluster:
                     srv.q.append((bytes(b), self))
 
                 def recvfrom(self, n):
+                    if self.closed:
+                        raise OSError(9, "Bad file descriptor")
                     if not self.q:
-                        S.block(lambda: bool(self.q))
+                        cur = S.current
+                        if cur is not None:
+                            cur.interrupt_check = lambda: self.closed
+                        try:
+                            S.block(lambda: bool(self.q))
+                        finally:
+                            if cur is not None:
+                                cur.interrupt_check = None
+                        if self.closed:
+                            raise OSError(9, "Bad file descriptor")
                     return self.q.popleft()
 
                 def recv(self, n):
